@@ -363,12 +363,37 @@ func (b *sourcePathsBuilder) remapDescriptor(
 			return nil, false, err
 		}
 		isDirty = isDirty || changed
+		// Compute the new index of every oneof before the oneofs are remapped (in place, possibly).
+		oneofCount := len(descriptor.OneofDecl)
+		newOneofIndexes := make([]int32, oneofCount)
+		nextOneofIndex := int32(0)
+		for i, oneof := range descriptor.OneofDecl {
+			if mode, ok := b.closure.elements[oneof]; ok && mode == inclusionModeExcluded {
+				newOneofIndexes[i] = -1
+				continue
+			}
+			newOneofIndexes[i] = nextOneofIndex
+			nextOneofIndex++
+		}
 		newOneofs, changed, err := remapSlice(sourcePathsRemap, append(sourcePath, messageOneofsTag), descriptor.OneofDecl, b.remapOneof, b.options)
 		if err != nil {
 			return nil, false, err
 		}
 		isDirty = isDirty || changed
 		if isDirty {
+			if len(newOneofs) != oneofCount {
+				// A oneof was dropped, the remaining fields must point at the new index of their oneof.
+				for i, field := range newFields {
+					if field.OneofIndex == nil {
+						continue
+					}
+					if newIndex := newOneofIndexes[field.GetOneofIndex()]; newIndex >= 0 && newIndex != field.GetOneofIndex() {
+						field = maybeClone(field, b.options)
+						field.OneofIndex = proto.Int32(newIndex)
+						newFields[i] = field
+					}
+				}
+			}
 			newDescriptor = maybeClone(descriptor, b.options)
 			newDescriptor.Field = newFields
 			newDescriptor.OneofDecl = newOneofs
